@@ -22,6 +22,19 @@ CLAIMED["C02"] = (
     "DESIGN.md 3/C02",
 )
 
+CLAIMED["C04"] = (
+    "differential runtime monitor: traces from all four tracing evaluators (VM/JIT x point/interval), simplify (reused/fresh storage and workspace, budgets 3/8/255, chains over nested boxes), parent vs child bit-for-bit under point, float-slice, gradient and interval evaluators; crash monitor; witness shrinking",
+    "Held on every generated program/trace/box/point observed. A discrepancy is attributed to C04 only when every node value at the point is enclosed by its interval on every traced box (otherwise it is C03 rounding slack and counted). Exploration.",
+    "Outputs into which a NaN was hashed by rand/mix are not compared (NaN payload bits are not values); interval evaluations that panic are left to C11.",
+    "DESIGN.md 3/C04",
+)
+CLAIMED["C20"] = (
+    "runtime monitor with an independent shadow interpreter and symbolic tape-to-graph matching: expected trace entries derived from the shadow's operand values (points) or the backend's own operand intervals (boxes, all-nodes twin); VM trace == JIT trace; shapes and metadata of functions vs tapes",
+    "Held on every generated program/point/box observed (counts of entries checked per op and entry kind in evidence). Exploration.",
+    "Choice sites whose operands depend on a min/max zero tie (JIT exemption of C02) or a NaN hashed by rand/mix are skipped and counted; x86-64 only.",
+    "DESIGN.md 3/C20",
+)
+
 NOT_YET = {}
 
 def main():
